@@ -1,22 +1,22 @@
 SPECIFICATION Spec
 CONSTANTS
   Kind = "sn"
-  Smp = "ref"
+  Smp = "asis"
   SumSamples = FALSE
   ExpSamples = FALSE
   OptImpl = "fixed"
-  Ctor = "bare"
+  Ctor = "model"
   N = 2
   Chans = 1
   Temps = {"any"}
-  Acts = {"temp", "hard", "gumbel", "disable", "mode", "fwd", "alpha", "load", "summary", "export"}
-  Writes = {"copy", "data", "optim"}
+  Acts = {"temp", "hard", "mode", "fwd", "alpha", "load", "freeze"}
+  Writes = {"copy"}
   Ckpts = {"soft"}
   Moves = "gen"
   InitAlpha = "ctor"
-  AllowKF = FALSE
-  Grads = {TRUE, FALSE}
-  SelHows = {}
+  AllowKF = TRUE
+  Grads = {TRUE}
+  SelHows = {"freeze_attr", "unfreeze_attr", "net_only", "nas_only", "net_and_nas"}
 INVARIANT TypeOK
 INVARIANT SampledIsProb
 INVARIANT OneHotAtArgmax
